@@ -66,6 +66,7 @@ NEG = [
     ("Geo", "MC_Geo_neg_axes", None),
     ("Geo", "MC_Geo_neg_fill", None),
     ("NetcdfFiles", "MC_NetcdfFiles_neg_memo", "LoadReturnsLastSaved"),
+    ("Synthetic", "MC_Synthetic_neg_nobreak", "ExactlyN"),
     ("Column", "MC_Column_neg_previous", "InLayer"),
     ("Column", "MC_Column_neg_dz", "InLayer"),
     ("Column", "MC_Column_neg_top", "TopFromTopNode"),
